@@ -1902,9 +1902,13 @@ func (r *Raft) becomeLeader() {
 // becomeFollower transitions this node to the follower state.
 func (r *Raft) becomeFollower(leaderID string, term uint64) {
 	r.state = Follower
+	// A vote is only forgotten when the term changes: stepping down within
+	// the current term must not allow a second vote in that term.
+	if term != r.currentTerm {
+		r.votedFor = ""
+	}
 	r.currentTerm = term
 	r.leaderID = leaderID
-	r.votedFor = ""
 	r.persistTermAndVote()
 	r.resetSnapshotFiles()
 
